@@ -38,7 +38,7 @@ type c03N struct {
 }
 
 var (
-	c03Pool    = []string{"a", "b", "c", "d", "l", "m", "g"}
+	c03Pool    = []string{"a", "b", "c", "d", "l", "m", "g", "f"} // d, f, g also name entries of the sentinel tree
 	c03OutLink = []string{"/out", "/out/f", "/out/d", "/out/d/g", "../../out/f", "../../out/d", "../sib", "..", "../..", "/",
 		"/secret", "../../secret", "/out/new", "../new", "/w/sib", "/out/s"}
 	c03InLink = []string{"a", "b", "b/c", ".", "l", "m", "nonexistent", "/w/dest/a", "../dest/a", "a/../b"}
@@ -717,6 +717,17 @@ type c03Pred struct {
 }
 
 func (p c03Pred) ok(path string) bool { return !p.set || p.def != p.paths[path] }
+
+// force makes the callback answer val for path
+func (p *c03Pred) force(path string, val bool) {
+	if p.set {
+		if p.def == val {
+			delete(p.paths, path)
+		} else {
+			p.paths[path] = true
+		}
+	}
+}
 func (p c03Pred) sx() Sx {
 	if !p.set {
 		return L()
@@ -792,8 +803,55 @@ func c03Case(r *Rng) (Sx, string, bool) {
 		items = append(items, c03Item{st: st})
 		sort.Slice(items, func(i, j int) bool { return fsutilCompare(items[i].st.Path, items[j].st.Path) < 0 })
 	}
+	linkThrough := false
+	if metaMode && r.Chance(18) {
+		// a name that the destination holds as a symlink to a directory outside is announced as a
+		// directory with a child the outside directory really has, both only recorded; then a
+		// hard link to that child which is transferred
+		type cand struct{ name, child string }
+		var cands []cand
+		for _, k := range dest {
+			if k.typ == 2 {
+				switch k.target {
+				case "/out", "../../out":
+					cands = append(cands, cand{k.name, "f"})
+				case "/out/d", "../../out/d":
+					cands = append(cands, cand{k.name, "g"})
+				case "..":
+					cands = append(cands, cand{k.name, "sib"})
+				case "/", "../..":
+					cands = append(cands, cand{k.name, "secret"})
+				}
+			}
+		}
+		if len(cands) > 0 {
+			cd := Pick(r, cands)
+			var keep []c03Item
+			for _, it := range items { // the stream's own version of that name goes
+				if it.st.Path != cd.name && !strings.HasPrefix(it.st.Path, cd.name+"/") {
+					keep = append(keep, it)
+				}
+			}
+			hl := cd.name + "~h"
+			keep = append(keep,
+				c03Item{st: &types.Stat{Path: cd.name, Mode: uint32(os.ModeDir | 0755), ModTime: c03Mtime(r)}},
+				c03Item{st: &types.Stat{Path: cd.name + "/" + cd.child, Mode: 0644, ModTime: c03Mtime(r)}},
+				c03Item{st: &types.Stat{Path: hl, Mode: 0644, ModTime: c03Mtime(r), Linkname: cd.name + "/" + cd.child}})
+			sort.Slice(keep, func(i, j int) bool { return fsutilCompare(keep[i].st.Path, keep[j].st.Path) < 0 })
+			items = keep
+			mo.set = true
+			mo.force(cd.name, false)
+			mo.force(cd.name+"/"+cd.child, false)
+			mo.force(hl, true)
+			merge = r.Chance(80)
+			linkThrough = true
+		}
+	}
 	pk := c03Play(r, items)
 	class := "valid"
+	if linkThrough {
+		class = "link-through"
+	}
 	if outsideHL != "" && r.Chance(60) {
 		// ... and then names it as the source of a hard link that carries other metadata
 		h := &types.Stat{Path: outsideHL + "z", Mode: uint32(Pick(r, c03Perms) & 0777), Uid: Pick(r, c03Ids), Gid: Pick(r, c03Ids),
@@ -809,7 +867,7 @@ func c03Case(r *Rng) (Sx, string, bool) {
 		}
 		class = "shared-inode-link"
 	}
-	if class == "valid" && r.Chance(map[bool]int{false: 72, true: 55}[metaMode]) {
+	if (class == "valid" || (linkThrough && r.Chance(25))) && r.Chance(map[bool]int{false: 72, true: 55}[metaMode]) {
 		pk, class = c03Corrupt(r, pk, dest)
 		if r.Chance(12) {
 			pk, _ = c03Corrupt(r, pk, dest)
@@ -818,6 +876,26 @@ func c03Case(r *Rng) (Sx, string, bool) {
 	}
 	if metaMode {
 		class = "meta-" + class
+		if r.Chance(40) {
+			// forward the hard links of the stream but not what they name (nor the directories above it)
+			for _, i := range c03StatIdx(pk) {
+				st := SxStat(pk[i].L[1])
+				m := os.FileMode(st.Mode)
+				if st.Linkname == "" || m.IsDir() || m&os.ModeSymlink != 0 {
+					continue
+				}
+				mo.force(st.Path, true)
+				for q := st.Linkname; q != "" && q != "."; {
+					mo.force(q, false)
+					if j := strings.LastIndexByte(q, '/'); j >= 0 {
+						q = q[:j]
+					} else {
+						q = ""
+					}
+				}
+			}
+			class += "+link-sel"
+		}
 	}
 	outLinks := 0
 	var flat []c03Flat
